@@ -247,6 +247,8 @@ func runC03(c *Ctx) {
 	c03PreviousNeverSkipped(c, l)
 	c03NoCountShortcut(c, l, "NO-COUNT-SHORTCUT")
 	c03DefaultFromDefault(c, "DEFAULT-RESOLVED", pkH)
+	c03CompareFirst(c, "COMPARE-FIRST", pkH)
+	c03ReservedMeansReserved(c, "RESERVED-MEANS-RESERVED", pkH)
 	ruleEqualityHelper(c, "EQUALITY-HELPER", pkgs)
 	c.Rule("SUPPRESSION-CONFIGURED", "the annotation filter drops an annotation only under a condition that reads the configuration", 4)
 	ruleSuppressionGuarded(c, "SUPPRESSION-CONFIGURED")
